@@ -230,8 +230,8 @@ PROPS["C08"] = dict(
 
 PROPS["C09"] = dict(
     level="proof",
-    verus=["c09_order", "c08_shape"],
-    labels=["C09."] + MASK,
+    verus=["c09_order", "c08_shape", "c08_wiring"],
+    labels=["C09.", "C08.from_wire.", "C08.to_wire.", "C08.shape."] + MASK,
     kani=[],
     trusted=["slice::sort_by_key sorts by the key and permutes (R6 lift)", "apply_optimisation regroups through a HashMap (uninterpreted)",
              "insert_dup keeps buckets sorted by id (Entry API + binary_search_by closure: outside the subset) - NOT under contract",
